@@ -1,7 +1,7 @@
----- MODULE J_C17 ----
-EXTENDS TileRule, Json, IOUtils, TLC
-(* C17: delivered frames, discarded-bytes reports and rejected frames tile the input. *)
-Mon(r) == Tile(r.e, 1, 0, r.T)
+---- MODULE J_C11 ----
+EXTENDS FaultRule, Json, IOUtils, TLC
+(* C11: the clauses of FaultRule on the results recorded from the real SmlReader over a fault-injecting io::Read. *)
+Mon(r) == FaultClauses(r.items, r.api, r.res, r.clean, r.fresh)
 
 \* ---- batch judge loop (generated boilerplate, see bin/vf) ---------------
 Recs == ndJsonDeserialize(IOEnv.VF_TRACE)
